@@ -85,20 +85,20 @@ type issuedToken struct {
 }
 
 type outReq struct {
-	seq      int
-	dest     string
-	kind     string // "registry" | "realm" | "foreign"
-	method   string
-	url      string
-	header   http.Header
-	body     string
-	callID   int
-	at       time.Time
-	bearer   string
-	basicU   string
-	basicP   string
-	status   int
-	demand   string
+	seq    int
+	dest   string
+	kind   string // "registry" | "realm" | "foreign"
+	method string
+	url    string
+	header http.Header
+	body   string
+	callID int
+	at     time.Time
+	bearer string
+	basicU string
+	basicP string
+	status int
+	demand string
 	// challengeScope: the scope text of the Bearer challenge this request was answered with
 	challengeScope string
 	challenged     bool
@@ -127,29 +127,29 @@ type regHost struct {
 	// bearerDeny: what the 401 to a request that carried a bearer token looks like
 	// ("" = the usual challenge, "none" = no Www-Authenticate at all, "unknown" =
 	// only schemes the client does not speak, "malformed")
-	bearerDeny string
+	bearerDeny   string
 	quotedRealm  bool
 	requireCreds bool
 	service      string
 }
 
 type authWorld struct {
-	env     *core.Env
-	c       *core.Choices
-	hosts   map[string]*regHost
-	realms  map[string]*regHost
-	tr      *simnet.Transport
-	issued  map[string]*issuedToken
+	env      *core.Env
+	c        *core.Choices
+	hosts    map[string]*regHost
+	realms   map[string]*regHost
+	tr       *simnet.Transport
+	issued   map[string]*issuedToken
 	callHost map[int]string // registry host each caller request was addressed to
-	out     []*outReq
-	ntok    int
+	out      []*outReq
+	ntok     int
 	// namedRealms[H]: realm hosts that registry H has named in a Bearer challenge so far;
 	// basicChallenged[H]: H has issued a Basic challenge so far.
 	namedRealms     map[string]map[string]bool
 	namedRealmURLs  map[string]map[string]bool // full realm URLs named by each registry
 	basicChallenged map[string]bool
 	rt              http.RoundTripper
-	latency func() time.Duration
+	latency         func() time.Duration
 }
 
 type callIDKey struct{}
@@ -518,14 +518,14 @@ func (b *trackedBody) Close() error               { b.closed++; return nil }
 // call issues one request through the auth transport and returns the response
 // status (0 on error) together with everything that went out during the call.
 type callResult struct {
-	id     int
-	status int
-	err    error
-	outs   []*outReq
-	body   *trackedBody
+	id        int
+	status    int
+	err       error
+	outs      []*outReq
+	body      *trackedBody
 	getBodies []*trackedBody
-	start  time.Time
-	reqEq  string // "" if the caller's request was left unmodified
+	start     time.Time
+	reqEq     string // "" if the caller's request was left unmodified
 }
 
 func (w *authWorld) call(id int, host, required, desired string, withBody, withGetBody bool) *callResult {
